@@ -301,7 +301,7 @@ def kernel_contract():
         loops={0: LoopSpec(fill=True), 1: LoopSpec(inv1, unfold=lambda V: unfold2(V)), 2: LoopSpec(inv2, unfold=unfold2),
                3: LoopSpec(inv3, unfold=unfold3), 4: LoopSpec(inv4, unfold=unfold45), 5: LoopSpec(inv5, unfold=unfold45)},
         use_contracts={"get_free_energy", "get_entropy", "get_heat_capacity"}, ensures=ens,
-        gen=_kernel_gen, interp=_kernel_interp)
+        gen=_kernel_gen, interp=_kernel_interp, race=True)
 
 
 def _kernel_gen(rnd):
@@ -337,7 +337,7 @@ def _kernel_interp(h, ev, env):
     inner = RecSum("tp_inner", [z3.IntSort(), z3.IntSort()], term)
     outer = RecSum("tp_outer", [z3.IntSort()], lambda bb, i: inner(i, bb, nb))
     ev.funcs.update(out)
-    out["tp_inner"] = recsum_callable(ev, inner)
+    out[inner.key] = recsum_callable(ev, inner)
     ev.funcs.update(out)
-    out["tp_outer"] = recsum_callable(ev, outer)
+    out[outer.key] = recsum_callable(ev, outer)
     return out
